@@ -453,6 +453,17 @@ func (in *Interp) valueKey(v Value, depth int) (string, bool) {
 	if depth > 6 {
 		return "", false
 	}
+	// a value nobody has looked at yet is identified by its lazy cell (forcing it here would make the
+	// marshaller choose the shape of every unread member: a path explosion that buys nothing)
+	if l, ok := v.(*Lazy); ok && !l.forced {
+		r := l
+		for r.src != nil && !r.src.forced {
+			r = r.src
+		}
+		if r.src == nil {
+			return fmt.Sprintf("L%p", r), true
+		}
+	}
 	switch x := in.force(v).(type) {
 	case *Term:
 		return fmt.Sprintf("t%d", x.id), true
